@@ -86,7 +86,7 @@ ERR = {"kind": "tftp_error", "code": 2}
 
 
 def gen(rng, tier, mult=1):
-    n = (600 if tier == "quick" else 8000) * mult
+    n = (1500 if tier == "quick" else 20000) * mult
     names = ["f", "g", "boot/x", "", "F"]
     for i in range(n):
         k = rng.choice([0, 1, 2, 2, 3, 4])
